@@ -221,3 +221,170 @@ class SequentialSumProduct(Contract):
 
     def hints(self, ctx, path):
         return div_hints(path) + mul_hints(path)
+
+
+# ==================================================================================================
+# mixed_sequential_sum_product: segment arithmetic for every duration and every number of segments
+# ==================================================================================================
+class FoldResult(MTerm):
+    """the (assumed, tier-B checked) result of one of the scan functions: the fold of `trans` over its time input; its value
+    is an abstract factor"""
+
+    def __init__(self, kind, trans, timevar, nseg=None):
+        self.kind, self.trans, self.timevar, self.nseg = kind, trans, timevar, nseg
+        self.val = z3.Const("fold!%d" % next(core.cur().counter), E)
+
+
+class SymList:
+    """[elem(i) for i in range(n)] with symbolic n: a template element for an arbitrary index i"""
+
+    def __init__(self, n, i, elem):
+        self.n, self.i, self.elem = n, i, elem
+
+
+class StackM(MTerm):
+    def __init__(self, name, parts):
+        self.name, self.parts = name, parts
+
+
+def stuple(x=()):
+    return x if isinstance(x, SymList) else tuple(x)
+
+
+stuple.__canon__ = tuple
+
+
+@register
+class MixedSequentialSumProduct(Contract):
+    """mixed_sequential_sum_product(sum_op, prod_op, trans, time, step, num_segments=n) for EVERY duration d >= 1 and every
+    n >= 1 (both symbolic):
+      uneven (d mod n != 0 and d - d mod n > 0): with r = d mod n, `initial` = positions [0, d-r) and `remainder` =
+        [d-r, d) tile [0, d); the recursive call is made on `initial` with a time variable of size d-r (< d: the measure
+        decreases; and n divides d-r, so the recursion does not split again), and the final naive scan runs over the
+        sequence [result of the recursive call] ++ remainder of length 1 + r, typed Bint[1 + r];
+      n == 1 -> naive scan of trans; n >= d -> parallel scan of trans (same time variable);
+      otherwise (then n divides d): L = d // n, segment i (ARBITRARY i in [0, n)) is positions [i*L, (i+1)*L) -- length L,
+        element k is position i*L + k -- so the n segments tile [0, d); first stage: naive scan over time of size L of the
+        stack of segments; second stage: parallel scan over the n segment results.
+    Every Slice is built inside its precondition and typed by the duration. With lemmas scan.segmentwise_fold /
+    right_fold_equals_left_fold / pairing_preserves_fold the result is the left fold of the step factors."""
+
+    props = ("C10",)
+    file = "funsor/sum_product.py"
+    qualname = "mixed_sequential_sum_product"
+    timeout_ms = 30000
+    total = True
+    mutants = (
+        ("remainder starts one late", "time, duration - duration % num_segments, duration, 1, duration", "time, duration - duration % num_segments + 1, duration, 1, duration"),
+        ("segments overlap", "time, i * segment_length, (i + 1) * segment_length, 1, duration", "time, i * segment_length, (i + 1) * segment_length + 1, 1, duration"),
+        ("final scan typed one short", "Variable(time, Bint[1 + duration % num_segments])", "Variable(time, Bint[duration % num_segments])"),
+        ("segment length from the remainder", "segment_length = duration // num_segments", "segment_length = duration // (num_segments + 1)"),
+    )
+
+    def structures(self, tier):
+        yield "num_segments=given", "given"
+        yield "num_segments=None", "none"
+
+    def build(self, p, st):
+        T = p.fresh_int("T")
+        p.assume(T >= 1)
+        n = p.fresh_int("nseg")
+        p.assume(n >= 1)
+        others = OrderedDict([("p0", MDom(3, ())), ("c0", MDom(3, ()))])
+        F0 = z3.Function("trans0!%d" % next(p.counter), z3.IntSort(), E)
+        checks = []
+        trans = TransM(lambda k: SV(F0(core._lift(k))), T, "t", others, {}, checks)
+        time = VariableM("t", MDom(T, ()))
+        calls = []
+        ctx = Ctx(namespace=None, checks=checks, T=T, n=n if st == "given" else T, F0=F0, calls=calls, p=p, time="t", base_others=others, trans=trans, timevar=time, st=st)
+
+        def rec(sum_op, prod_op, tr, tv, step, num_segments=None):
+            r = FoldResult("rec", tr, tv, num_segments)
+            calls.append(r)
+            return r
+
+        def naive(sum_op, prod_op, tr, tv, step):
+            r = FoldResult("naive", tr, tv)
+            calls.append(r)
+            return r
+
+        def seq(sum_op, prod_op, tr, tv, step):
+            r = FoldResult("seq", tr, tv)
+            calls.append(r)
+            return r
+
+        def Cat(name, parts, part_name=None):
+            a, b = parts
+            ok = isinstance(a, StackM) and isinstance(a.parts, tuple) and len(a.parts) == 1 and isinstance(a.parts[0], FoldResult) and isinstance(b, TransM) and a.name == name == "t"
+            if not ok:
+                raise Unsupported("Cat outside the model")
+            head = a.parts[0]
+            ba = b.at
+            return TransM(lambda k: SV(z3.If(core._lift(k < 1), head.val, ba(k - 1).e)), 1 + b.length, name, others, {}, checks)
+
+        ctx.namespace = dict(M.DOMAIN_NS, Variable=VariableM, Slice=SliceM, Stack=StackM, Cat=Cat, mixed_sequential_sum_product=rec,
+                             naive_sequential_sum_product=naive, sequential_sum_product=seq, tuple=stuple)
+        ctx.args = ("sum", "prod", trans, time, {"p0": "c0"})
+        ctx.kwargs = {"num_segments": n} if st == "given" else {}
+        return ctx
+
+    def hooks(self, ctx):
+        def comp(interp, e, sc):
+            if len(e.generators) != 1 or e.generators[0].ifs:
+                return NotImplemented
+            it = interp.eval(e.generators[0].iter, sc)
+            if not isinstance(it, core.SymRange):
+                return NotImplemented
+            p = ctx.path
+            i = p.fresh_int("seg_i")
+            p.assume(And(it.start <= i, i < it.stop))
+            inner = core.Scope(sc)
+            interp.assign(e.generators[0].target, i, inner)
+            elem = interp.eval(e.elt, inner)
+            return SymList(it.stop - it.start if it.start != 0 else it.stop, i, elem)
+
+        return {"comp": comp}
+
+    def ensures(self, ctx, result):
+        d, n, F0 = ctx.T, ctx.n, ctx.F0
+        p = ctx.p
+        cl = list(ctx.checks)
+        calls = ctx.calls
+        k = p.fresh_int("k")
+        r = core.mod_pos(d, n)
+        if len(calls) == 1 and calls[0].kind == "naive":
+            cl.append(("single_segment_is_naive_scan_of_trans", And(n == 1, calls[0].trans is ctx.trans, calls[0].timevar is ctx.timevar, result is calls[0])))
+        elif len(calls) == 1 and calls[0].kind == "seq":
+            cl.append(("at_least_duration_segments_is_parallel_scan_of_trans", And(n >= d, calls[0].trans is ctx.trans, calls[0].timevar is ctx.timevar, result is calls[0])))
+        elif len(calls) == 2 and calls[0].kind == "rec":
+            rc, fin = calls
+            ini = rc.trans
+            cl += [
+                ("uneven_branch_condition", And(r != 0, d - r > 0)),
+                ("initial_is_prefix", And(deep_eq(ini.length, d - r), Implies(And(0 <= k, k < d - r), ini.at(k).e == F0(core._lift(k))))),
+                ("recursive_call_typed_and_same_segments", And(deep_eq(rc.timevar.output.dtype, d - r), rc.timevar.name == "t", deep_eq(rc.nseg, n))),
+                ("measure_decreases_and_divisible", And(d - r < d, d - r >= 1, core.mod_pos(d - r, n) == 0)),
+                ("final_scan_is_naive_typed_by_its_length", And(fin.kind == "naive", deep_eq(fin.trans.length, 1 + r), deep_eq(fin.timevar.output.dtype, 1 + r), fin.timevar.name == "t", result is fin)),
+                ("final_sequence_is_recursive_result_then_remainder", And(fin.trans.at(0).e == rc.val, Implies(And(1 <= k, k <= r), fin.trans.at(k).e == F0(core._lift(d - r + k - 1))))),
+            ]
+        elif len(calls) == 2 and calls[0].kind == "naive" and calls[1].kind == "seq":
+            first, second = calls
+            st_ = first.trans
+            ok = isinstance(st_, StackM) and isinstance(st_.parts, SymList) and st_.name == "t__SEGMENTED"
+            if not ok:
+                return cl + [("first_stage_runs_on_the_stack_of_segments", False)]
+            seg, i = st_.parts.elem, st_.parts.i
+            L = core.floordiv_pos(d, n)
+            cl += [
+                ("segment_branch_condition", And(n > 1, n < d, r == 0)),
+                ("segments_tile_the_duration", And(deep_eq(st_.parts.n, n), n * L == d)),
+                ("segment_i_is_its_interval", And(isinstance(seg, TransM), deep_eq(seg.length, L), Implies(And(0 <= k, k < L), seg.at(k).e == F0(core._lift(i * L + k))))),
+                ("first_stage_time_is_segment_length", And(deep_eq(first.timevar.output.dtype, L), first.timevar.name == "t")),
+                ("second_stage_over_segment_results", And(second.trans is first, second.timevar.name == "t__SEGMENTED", deep_eq(second.timevar.output.dtype, n), result is second)),
+            ]
+        else:
+            cl.append(("recognised_branch", False))
+        return cl
+
+    def hints(self, ctx, path):
+        return div_hints(path) + mul_hints(path)
